@@ -225,6 +225,9 @@ def run(ck):
     peek_rule(ck, prog, ra_methods)
     pair_rule(ck, prog, ra_methods)
     eof_rule(ck, prog, ra_methods)
+    ck.rule("REFILL", "the underlying reader (which reports end of data) is consulted only after the method established that the local buffer cannot "
+                      "serve the request: buffered < requested (strictly), or the local buffer is empty")
+    refill_rule(ck, prog, ra_methods)
     controls(ck, prog)
 
 
@@ -368,6 +371,90 @@ def eof_rule(ck, prog, ra_methods):
                   f"{f.nname.split('::')[-1]}: {what} happens only where an empty fill of the underlying reader, a reader error, or "
                   "guaranteed_eof was observed (a short chunk is not the end of the stream)", loc=f.loc(b, i))
     ck.floor("end-of-data sites in ReadAdapter", n_sites, 5)
+
+
+REFILLS = ("ReadAdapter::non_empty_reader_buffer_mut", "ReadAdapter::non_empty_reader_buffer")
+LOCAL_VIEWS = ("ReadAdapter::buffer", "ReadAdapter::non_empty_buffer")
+
+
+def _must_edges(f, target_block):
+    """switch edges (block, successor, value-or-'else') that every path from entry to target_block takes"""
+    res = []
+    for b, blk in enumerate(f.blocks):
+        t = blk["t"]
+        if t["k"] != "switch":
+            continue
+        edges = [(v, tb) for v, tb in t["targets"]] + [("else", t["otherwise"])]
+        for v, tb in edges:
+            # is target reachable from entry when this edge is removed?
+            seen, st = {0}, [0]
+            found = False
+            while st and not found:
+                x = st.pop()
+                for y in f.succ[x]:
+                    if x == b and y == tb and sum(1 for _, z in edges if z == tb) == 1:
+                        continue
+                    if y not in seen:
+                        if y == target_block:
+                            found = True
+                            break
+                        seen.add(y)
+                        st.append(y)
+            if not found and target_block != 0:
+                res.append((b, tb, v))
+    return res
+
+
+def refill_rule(ck, prog, ra_methods):
+    n = 0
+    ordinal = {}
+    for f in ra_methods:
+        g = flow(f)
+        for cb, ct in f.calls():
+            cn = callee_name(ct) or ""
+            if not cn.endswith(REFILLS):
+                continue
+            n += 1
+            ordinal[f.nname] = ordinal.get(f.nname, 0) + 1
+            ok, seen_conds = False, []
+            for (b, tb, v) in _must_edges(f, cb):
+                t = f.term(b)
+                c = trace_cond(f, t["d"])
+                listed = [x for x, _ in t["targets"]]
+                if t.get("dty") == "bool" and c.kind == "cmp":
+                    truth = (v != "0") if v != "else" else ("0" in listed)
+                    cc = c if truth else c.negated()
+                    for op, l, r in ((cc.op, cc.lhs, cc.rhs), (FLIPS[cc.op], cc.rhs, cc.lhs)):
+                        lw = g.walk(ops=[l], at=c.node, through=lambda tt: not (callee_name(tt) or "").endswith(LOCAL_VIEWS))
+                        rw = g.walk(ops=[r], at=c.node, through=lambda tt: not (callee_name(tt) or "").endswith(LOCAL_VIEWS))
+                        l_local = any(x.endswith(LOCAL_VIEWS) for x in g.callee_names_in(lw))
+                        r_local = any(x.endswith(LOCAL_VIEWS) for x in g.callee_names_in(rw))
+                        if l_local and not r_local:
+                            seen_conds.append(f"buffered {op} requested")
+                            if op == "<":
+                                ok = True
+                else:
+                    # emptiness of the local view: `match buffer().len() { 0 => .. }`, `non_empty_buffer()` is None, `buffer().first()` is None
+                    dl = op_local(t["d"], pure=True)
+                    w = g.walk(ops=[t["d"]], at=(b, T), through=lambda tt: not (callee_name(tt) or "").endswith(LOCAL_VIEWS))
+                    if any(x.endswith(LOCAL_VIEWS) for x in g.callee_names_in(w)):
+                        is_zero_edge = v == "0" or (v == "else" and listed == ["1"] and t.get("dty") == "isize")
+                        if c.kind == "discr" and is_zero_edge:
+                            ok = True   # Option discriminant 0 = None
+                            seen_conds.append("local view is None")
+                        elif c.kind == "call" and (callee_name(c.call) or "").endswith("::len") and v == "0" and t.get("dty") != "bool":
+                            ok = True
+                            seen_conds.append("buffered == 0")
+                        elif c.kind == "call" and (callee_name(c.call) or "").endswith("is_empty") and ((v != "0" and v != "else") or (v == "else" and "0" in listed)) != c.neg:
+                            ok = True
+                            seen_conds.append("local view is empty")
+            ck.ob("REFILL", f"{f.nname.split('::')[-1]}:{cn.split('::')[-1]}#{ordinal[f.nname]}", ok,
+                  f"{f.nname.split('::')[-1]} consults the underlying reader ({cn.split('::')[-1]}) only on paths where it established that the local "
+                  f"buffer cannot serve the request (found: {seen_conds or 'no such decision'})", loc=f.loc(cb, T))
+    ck.floor("refill call sites in ReadAdapter", n, 5)
+
+
+FLIPS = {"<": ">", "<=": ">=", ">": "<", ">=": "<=", "==": "==", "!=": "!="}
 
 
 def justified_edges(f):
